@@ -9,7 +9,7 @@ INV = ["Coherent", "UpdateOK"]
 
 def run(tier, argv):
     chk = Check("C03", tier)
-    plans = [("a", ["f2", "fs", "fd"], "all", 2), ("b", ["fa", "fvf", "fc", "fn3", "fb", "fs2"], "few", 1),
+    plans = [("a", ["f2", "fs", "fd"], "all", 2), ("b", ["fa", "fvf", "fc", "fn3", "fb", "fs2", "fsk"], "few", 1),
              ("c", ["sc", "sc2", "cTF", "fcg", "fch"], "few", 1)]            # c: the trace's own gen_fn is a Scan / a Cond (recorded arguments)
     if tier != "quick":
         plans = [("a", ["f2", "fs", "fd", "fa", "fc"], "all", 2), ("b", ["fvf", "fn3", "fv", "fr", "fsc", "cTF", "fvs", "fs2", "fe", "fve"], "few", 2),
